@@ -14,6 +14,10 @@ mod uci;
 
 mod hx;
 
+pub fn bench_fens() -> Vec<&'static str> {
+    Vec::new()
+}
+
 fn main() {
     let args: Vec<String> = std::env::args().collect();
     let cmd = args.get(1).map(String::as_str).unwrap_or("");
